@@ -6,14 +6,15 @@ From MV Require Export Datalog.Syntax Datalog.Interp Datalog.Solve Datalog.SemiN
 Import ListNotations.
 Open Scope Z_scope.
 
-(* what Go returned for one goal (an empty list = ErrNoProof) *)
-Record goal_obs := mkGoal { g_fact : fact; g_proofs : list pnode }.
+(* what Go returned for one goal in one mode (an empty list = ErrNoProof);
+   g_need = a complete proof is owed for this goal *)
+Record goal_obs := mkGoal { g_fact : fact; g_need : bool; g_proofs : list pnode }.
 
 Record case := mkCase {
   c_prog : list clause;        (* ProgramInfo.Rules, in order *)
   c_base : list fact;          (* facts of the program text + facts the caller stored *)
   c_store : list fact;         (* the evaluated store *)
-  c_need : bool;               (* a complete proof is owed for every goal *)
+  c_ref : bool;                (* also run the reference explainer on this input *)
   c_goals : list goal_obs }.
 
 (* 0 = every returned proof is a valid complete derivation of the goal
@@ -22,15 +23,16 @@ Record case := mkCase {
    2 = a proof not flagged partial is rejected by check_proof, or a returned tree
        concludes another fact than the goal
    3 = a complete proof is owed and none of the returned proofs is one *)
-Definition judge_goal (P : list clause) (base St : list fact) (need : bool) (g : goal_obs) : Z :=
+Definition judge_goal (P : list clause) (base St : list fact) (g : goal_obs) : Z :=
   let ps := g_proofs g in
+  let need := g_need g in
   if existsb (fun n => negb (fact_eqb (node_fact n) (g_fact g))) ps then 2
   else if existsb (fun n => negb (has_partial n) && negb (check_proof P base St (g_fact g) n)) ps then 2
   else if need && negb (existsb (fun n => negb (has_partial n) && check_proof P base St (g_fact g) n) ps) then 3
   else if existsb has_partial ps then 1 else 0.
 
 Definition goal_codes (c : case) : list Z :=
-  map (judge_goal (c_prog c) (c_base c) (c_store c) (c_need c)) (c_goals c).
+  map (judge_goal (c_prog c) (c_base c) (c_store c)) (c_goals c).
 
 Fixpoint first_bad (k : Z) (l : list Z) : Z :=
   match l with
@@ -39,7 +41,7 @@ Fixpoint first_bad (k : Z) (l : list Z) : Z :=
   end.
 
 (* 0 | 1 as above for all goals; otherwise (index of the first offending goal + 1) * 10 + its code *)
-Definition judge (c : case) : Z :=
+Definition judge_go (c : case) : Z :=
   let l := goal_codes c in
   let b := first_bad 0 l in
   if b =? 0 then (if existsb (Z.eqb 1) l then 1 else 0) else b.
@@ -53,3 +55,10 @@ Definition judge_ref (c : case) : Z :=
                        | Some n => check_proof (c_prog c) (c_base c) (c_store c) (g_fact g) n
                        | None => false
                        end) (c_goals c) then 0 else 4.
+
+(* the verdict of a case: the Go proofs first; 4 if they are fine but the reference
+   explainer (when requested) fails on the same store *)
+Definition judge (c : case) : Z :=
+  let j := judge_go c in
+  if 2 <=? j then j
+  else if c_ref c then (if judge_ref c =? 0 then j else 4) else j.
